@@ -757,7 +757,7 @@ func (r *yieldRewriter) rewriteBreakContinues(body *ast.BlockStmt) {
 			top := funcLitStack.top()
 			return top != nil && !isGeneratedFuncLit(top)
 		}
-		isMonadicLoop      = func(call *ast.CallExpr) bool {
+		isMonadicLoop = func(call *ast.CallExpr) bool {
 			idx, ok := call.Fun.(*ast.IndexExpr)
 			if !ok {
 				return false
@@ -829,7 +829,8 @@ func (r *yieldRewriter) rewriteBreakContinues(body *ast.BlockStmt) {
 		case *ast.ForStmt, *ast.RangeStmt:
 			enterLoop(true)
 			enterSrcSwitch(false)
-		case *ast.SwitchStmt, *ast.TypeSwitchStmt:
+		case *ast.SwitchStmt, *ast.TypeSwitchStmt, *ast.SelectStmt:
+			// a select left in the output has no yield inside, a break leaves it like a switch
 			enterSwitch(true)
 			enterSrcSwitch(true)
 		case *ast.FuncLit:
@@ -849,7 +850,7 @@ func (r *yieldRewriter) rewriteBreakContinues(body *ast.BlockStmt) {
 		case *ast.ForStmt, *ast.RangeStmt:
 			exitLoop()
 			exitSrcSwitch()
-		case *ast.SwitchStmt, *ast.TypeSwitchStmt:
+		case *ast.SwitchStmt, *ast.TypeSwitchStmt, *ast.SelectStmt:
 			exitSwitch()
 			exitSrcSwitch()
 		case *ast.CallExpr:
